@@ -153,6 +153,19 @@ CHECKS["C08"] = dict(
          "the claim), MONT/UNMONT bijection, math/big stub. The ring laws (s+t)P etc. are consequences.",
     technique="SSA symbolic execution in a formal-linear-combination group domain + SMT (z3 LIA/UF)")
 
+CHECKS["C02"] = dict(
+    category="proof",
+    text="Decidable core of the verifier property: (1) shape totality - CheckMultiProof for all 64 combinations of len(Cs),len(ys),len(zs) "
+         "in 0..3 and CheckIPAProof for all 100 combinations of len(L),len(R) in 0..9 executed from SSA: every malformed shape gives "
+         "(false, error), no panic path reachable; (2) acceptance predicate - CheckIPAProof executed end to end (8 rounds, folding scalars, "
+         "MSM, inner product) with all components symbolic: the returned boolean is the value of exactly one group-equality test whose two "
+         "sides equal g0*a+(a*b0)*wQ and C+y*wQ+sum x_i L_i+x_i^-1 R_i coefficient by coefficient, and the transcript absorbs C, z, y, "
+         "w, (L_i, R_i, x_i) in the specified order.",
+    design_ref="DESIGN.md section 5 / C02",
+    note="Rejection of EVERY wrong statement is a computational-soundness claim and not solver-decidable; what is decided is that the Go "
+         "verifier evaluates the protocol's predicate and nothing weaker. Trusted: encoder, z3, summaries as in C01, computeBVector (C04/C18).",
+    technique="SSA symbolic execution + z3 identity checking; enumeration of shapes")
+
 NOT_YET = {}
 
 ALL = ["C%02d" % i for i in range(1, 21)]
